@@ -75,6 +75,10 @@ func W() *World {
 type pkt struct {
 	from net.Addr
 	data []byte
+	// lag: the reader that takes this packet off the socket stays off the CPU
+	// for this long before it returns to its caller (a descheduling right after
+	// the system call returned; legal at any time on a real machine)
+	lag time.Duration
 }
 
 // PacketConn stands in for *icmp.PacketConn.
@@ -178,13 +182,17 @@ type heldReply struct {
 }
 
 // ReleaseHeld delivers the replies held back for sockets of node (all of them
-// at this instant) and reports how many there were.
+// at this instant) and reports how many there were. The reader that picks a
+// released reply up is descheduled for a drawn time right after the read, so
+// that whatever made the harness release it (a close frame on its way to the
+// node) can overtake the reader between the read and its next step.
 func (w *World) ReleaseHeld(node string) int {
 	n := 0
 	keep := w.held[:0]
 	for _, h := range w.held {
 		if h.c.node == node {
-			h.c.deliver(h.rp)
+			lags := [...]time.Duration{0, 2 * time.Millisecond, 20 * time.Millisecond, 200 * time.Millisecond, 2 * time.Second}
+			h.c.deliverLag(h.rp, lags[simrt.Choose(len(lags), "icmpreadlag")])
 			n++
 		} else {
 			keep = append(keep, h)
@@ -194,7 +202,9 @@ func (w *World) ReleaseHeld(node string) int {
 	return n
 }
 
-func (c *PacketConn) deliver(rp Reply) {
+func (c *PacketConn) deliver(rp Reply) { c.deliverLag(rp, 0) }
+
+func (c *PacketConn) deliverLag(rp Reply, lag time.Duration) {
 	if c.closed {
 		return
 	}
@@ -207,7 +217,7 @@ func (c *PacketConn) deliver(rp Reply) {
 	if err != nil {
 		panic("simicmp: marshal reply: " + err.Error())
 	}
-	c.queue = append(c.queue, pkt{from: &net.UDPAddr{IP: rp.From}, data: b})
+	c.queue = append(c.queue, pkt{from: &net.UDPAddr{IP: rp.From}, data: b, lag: lag})
 	c.q.WakeAll()
 }
 
@@ -221,6 +231,10 @@ func (c *PacketConn) ReadFrom(b []byte) (int, net.Addr, error) {
 			p := c.queue[0]
 			c.queue = c.queue[1:]
 			n := copy(b, p.data)
+			if p.lag > 0 {
+				simrt.Eventf("icmp reader descheduled after read node=%s sock=%d lag=%s", c.node, c.id, p.lag)
+				simrt.Sleep(p.lag)
+			}
 			return n, p.from, nil
 		}
 		wait := time.Duration(-1)
